@@ -81,6 +81,67 @@ def depfileMon (expected : Depfile.Entries) (impl : List String) : List (String 
     | none => [("parseImpl", false)]
   | _ => [("structuredAccepted", false)]
 
+/-- Split on newlines (the pieces between them; the last piece has no newline after it). -/
+def splitNl (b : Bytes) : List Bytes :=
+  let r := b.foldl (fun (acc : List Bytes × Bytes) x => if x == 10 then (acc.1 ++ [acc.2], []) else (acc.1, acc.2 ++ [x])) ([], [])
+  r.1 ++ [r.2]
+
+def parseFrameTasks : List String → Option (List Render.FrameTask)
+  | [] => some []
+  | m :: sc :: _raw :: lossy :: rest => do
+    let msg ← bytesOfHex m
+    let secs ← sc.toNat?
+    let ll ← (if lossy == "~" then some none else (bytesOfHex lossy).map some)
+    let ts ← parseFrameTasks rest
+    pure (⟨msg, secs, ll⟩ :: ts)
+  | _ => none
+
+/-- C20 on a frame the real `print_progress` produced: one row per shown task (≤ width), one
+    row per last output line: two blanks + a boundary-aligned prefix of the decoded line, ≤ width. -/
+def frameMon (tasks : List Render.FrameTask) (cols : Nat) (impl : List String) : List (String × Bool) :=
+  match impl with
+  | ["ok", h] =>
+    match bytesOfHex h with
+    | some out =>
+      let rows := splitNl out
+      let shown := tasks.take 8
+      let expected := 1 + (shown.map (fun t => if t.lastLine.isSome then 2 else 1)).sum + (if tasks.length > 8 then 1 else 0)
+      let rec go (ts : List Render.FrameTask) (rs : List Bytes) : Bool × Bool :=
+        match ts, rs with
+        | [], _ => (true, true)
+        | t :: ts', m :: rs' =>
+          match t.lastLine with
+          | none => let r := go ts' rs'; (decide (m.length ≤ cols) && r.1, r.2)
+          | some l =>
+            match rs' with
+            | ll :: rs'' =>
+              let p := ll.drop 2
+              let r := go ts' rs''
+              (decide (m.length ≤ cols) && decide (ll.length ≤ cols) && r.1,
+               ll.take 2 == [32, 32] && p.isPrefixOf l && Render.isCharBoundary l p.length && r.2)
+            | [] => (false, false)
+        | _ :: _, [] => (false, false)
+      let r := go shown (rows.drop 1)
+      [("noPanic", true), ("frameShape", rows.length == expected + 1), ("rowsFit", r.1), ("lastLineCut", r.2)]
+    | none => [("parseImpl", false)]
+  | _ => [("noPanic", false)]
+
+def parseChainF : Nat → List String → Option (List (List Bytes × Option Bytes))
+  | _, [] => some []
+  | 0, _ => none
+  | fuel + 1, "S" :: n :: rest => do
+    let k ← n.toNat?
+    let outs ← (rest.take k).mapM bytesOfHex
+    let rm ← match (rest.drop k).head? with
+      | some "~" => some none
+      | some h => (bytesOfHex h).map some
+      | none => none
+    let more ← parseChainF fuel (rest.drop (k + 1))
+    pure ((outs, rm) :: more)
+  | _, _ => none
+
+def parseChain (l : List String) : Option (List (List Bytes × Option Bytes)) := parseChainF l.length l
+
 def handleSched (case impl : List String) : String :=
   let parsed := (do
     let a ← Proto.argsD
@@ -589,6 +650,13 @@ def handle (case impl : List String) : String :=
         | _ => [("noPanic", false)]
       "ok " ++ hexOfBytes (Render.truncate m k) ++ mons mon
     | _, _ => "bad-case"
+  | "frame" :: colsS :: w :: r :: q :: ru :: d :: f :: nS :: rest =>
+    match parseFrameTasks rest, [w, r, q, ru, d, f, nS].mapM String.toNat? with
+    | some tasks, some [w, r, q, ru, d, f, n] =>
+      if tasks.length != n then "bad-case" else
+      let cols : Option Nat := if colsS == "-" then none else colsS.toNat?
+      showRes (Render.frame ⟨w, r, q, ru, d, f⟩ tasks cols) ++ mons (frameMon tasks (cols.getD 80) impl)
+    | _, _ => "bad-case"
   | ["bar", w, r, q, ru, d, f, n] =>
     match [w, r, q, ru, d, f, n].mapM String.toNat? with
     | some [w, r, q, ru, d, f, n] =>
@@ -645,6 +713,20 @@ def handle (case impl : List String) : String :=
     let want := "codes=[0,0] content=" ++ h ++ " rsp=" ++ h
     want ++ mons [("rspfileExact", " ".intercalate impl == want)]
   | ["n2bin", "fds"] => "code=0 leaked=0" ++ mons [("noFdLeak", impl == ["code=0", "leaked=0"])]
+  | "n2bin" :: "outchain" :: toks =>
+    match parseChain toks with
+    | some steps =>
+      let sets := Task.chainDirs steps []
+      let showSet (l : List Bytes) := ",".intercalate ((l.map hexOfBytes).mergeSort (fun a b => decide (a ≤ b)))
+      let want := "code=0 dirs=" ++ ";".intercalate (sets.map showSet)
+      -- property: the parent directory of every output of every step exists when its command starts
+      let have_ : List (List String) := match impl with
+        | [_, d] => ((d.drop 5).toString.splitOn ";").map (fun x => x.splitOn ",")
+        | _ => []
+      let ok := have_.length == steps.length && (List.zip steps have_).all (fun p =>
+        p.1.1.all (fun o => (Task.parentOf o).isEmpty || p.2.contains (hexOfBytes (Task.parentOf o))))
+      want ++ mons [("outputDirsExist", ok && impl.head? == some "code=0")]
+    | none => "bad-case"
   | "n2bin" :: "outdirs" :: outs =>
     let os := outs.filterMap bytesOfHex
     let dirs := ((Task.dirsBeforeCommand os).map hexOfBytes).eraseDups
